@@ -108,6 +108,32 @@ def _depends_on_parameter(func, test):
     return bool(mentioned & derived)
 
 
+_SHAPES = {}
+
+
+def _shape(condition):
+    """The condition with its variable names replaced by placeholders in order of appearance (renaming-proof)."""
+    if condition not in _SHAPES:
+        try:
+            tree = ast.parse(condition, mode="eval")
+        except SyntaxError:
+            _SHAPES[condition] = condition
+            return condition
+        names = {}
+        for node in ast.walk(tree):
+            if isinstance(node, ast.Name):
+                names.setdefault(node.id, "v%d" % len(names))
+        # ast.walk is breadth first; number by source position instead so that renamings keep the numbering
+        ordered = sorted((n for n in ast.walk(tree) if isinstance(n, ast.Name)), key=lambda n: (n.lineno, n.col_offset))
+        names = {}
+        for node in ordered:
+            names.setdefault(node.id, "v%d" % len(names))
+        for node in ordered:
+            node.id = names[node.id]
+        _SHAPES[condition] = ast.unparse(tree)
+    return _SHAPES[condition]
+
+
 class AssertClassifier:
     def __init__(self):
         self.untriaged = []
@@ -134,7 +160,8 @@ class AssertClassifier:
             # the function was renamed, extracted or moved within its module: the triage of the identical condition is
             # carried over when exactly one assert of that module has it
             module_prefix = qualname.split(".")[0] + "."
-            same = [(k, v) for k, v in assert_table.TRIAGE.items() if k[1] == condition and k[0].startswith(module_prefix)]
+            shape = _shape(condition)
+            same = [(k, v) for k, v in assert_table.TRIAGE.items() if _shape(k[1]) == shape and k[0].startswith(module_prefix)]
             classes = {v[0] for _, v in same}
             if same and len(classes) == 1:
                 entry = same[0][1]
@@ -255,7 +282,7 @@ def rule_main_mapping(ctx):
                     names.append("builtins.OSError")
                 else:
                     names.append("builtins." + text if "." not in text else text)
-        gives_4 = any(isinstance(n, ast.Assign) and isinstance(n.value, ast.Constant) and n.value.value == 4 for n in ast.walk(handler))
+        gives_4 = any(isinstance(n, (ast.Assign, ast.Return)) and isinstance(n.value, ast.Constant) and n.value.value == 4 for n in ast.walk(handler))
         handlers.append((names, gives_4, handler.lineno))
     if not any(gives_4 for _, gives_4, _ in handlers):
         raise AnalysisError("main() has no handler that answers with exit code 4")
